@@ -116,6 +116,40 @@ static std::string esc(const std::string &s)
     return o;
 }
 
+// what RewriteTrigVisitor visits instead of the node (null for every other kind)
+static RCP<const Basic> rewritten(const Basic &b)
+{
+    auto a = [&]() { return b.get_args()[0]; };
+    switch (b.get_type_code()) {
+        case SYMENGINE_COT:
+            return div(one, tan(a()));
+        case SYMENGINE_CSC:
+            return div(one, sin(a()));
+        case SYMENGINE_SEC:
+            return div(one, cos(a()));
+        case SYMENGINE_ACOT:
+            return atan(div(one, a()));
+        case SYMENGINE_ACSC:
+            return asin(div(one, a()));
+        case SYMENGINE_ASEC:
+            return acos(div(one, a()));
+        case SYMENGINE_COTH:
+            return div(one, tanh(a()));
+        case SYMENGINE_CSCH:
+            return div(one, sinh(a()));
+        case SYMENGINE_SECH:
+            return div(one, cosh(a()));
+        case SYMENGINE_ACOTH:
+            return atanh(div(one, a()));
+        case SYMENGINE_ACSCH:
+            return asinh(div(one, a()));
+        case SYMENGINE_ASECH:
+            return acosh(div(one, a()));
+        default:
+            return RCP<const Basic>();
+    }
+}
+
 // D25: a reciprocal function node (printed as 1/f(x) by RewriteTrigVisitor, but of precedence Atom) used as the only
 // denominator of a product or as the base of a power with exponent -1
 static bool is_recip_kind(const Basic &b)
@@ -302,6 +336,11 @@ static bool int_typed(const Basic &b)
 }
 static bool has_int_division(const Basic &b)
 {
+    {
+        RCP<const Basic> rw = rewritten(b);
+        if (!rw.is_null())
+            return has_int_division(*rw);
+    }
     if (is_a<Pow>(b)) {
         const Pow &p = down_cast<const Pow &>(b);
         if (eq(*p.get_exp(), *minus_one) && int_typed(*p.get_base()))
